@@ -22,6 +22,7 @@ args/result type:
 Known-defect probes (hand-written IDL) pin the constructs the Go generator cannot compile.
 """
 import base64
+import re
 import collections
 import struct
 
@@ -75,6 +76,21 @@ def go_eq(p, t, a, b):
 # is_set follow the emitted code; it is used only to recognise that defect precisely (everything else still fails).
 INIT_CONST_QUIRK = False
 KNOWN_INIT_CONST = {"class": "optional_default_from_init_constant"}
+
+
+KNOWN_JSON_SPLIT = {"class": "thrift_json_special_double_split_at_4096"}
+THRIFT_JSON_SPLIT = re.compile(rb"Expected '(NaN|-?Infinity)' but found '(N|Na|-|-?I|-?In|-?Inf|-?Infi|-?Infin|-?Infini|-?Infinit)\x00+'")
+
+
+def _special_double_straddles(b):
+    """does a quoted NaN / Infinity / -Infinity literal of the JSON text b cross a multiple of 4096"""
+    for lit in (b'"NaN"', b'"Infinity"', b'"-Infinity"'):
+        at = b.find(lit)
+        while at >= 0:
+            if (at + 1) // 4096 != (at + len(lit) - 2) // 4096:
+                return True
+            at = b.find(lit, at + 1)
+    return False
 
 
 def init_const_default(p, f):
@@ -132,6 +148,32 @@ def quirk_union_count_off(p, t, v):
         return any(quirk_union_count_off(p, r[1], x) for x in v)
     if r[0] == "map":
         return any(quirk_union_count_off(p, r[1], k) or quirk_union_count_off(p, r[2], x) for k, x in v)
+    return False
+
+
+def union_count_off(p, t, v, quirk):
+    """does v hold a union whose number of set fields is not 1 (quirk: counted with the emitted IsSet of the known finding)"""
+    global INIT_CONST_QUIRK
+    if v is None:
+        return False
+    r = L.resolve(p, t)
+    if r[0] == "ref":
+        k, d = L.lookup(p, r[1], r[2])
+        if k == "enum":
+            return False
+        if d["kind"] == "union":
+            INIT_CONST_QUIRK = quirk
+            try:
+                n = sum(1 for f in d["fields"] if is_set(p, f, v.get(f["id"])))
+            finally:
+                INIT_CONST_QUIRK = False
+            if n != 1:
+                return True
+        return any(union_count_off(p, f["type"], v.get(f["id"]), quirk) for f in d["fields"])
+    if r[0] in ("list", "set"):
+        return any(union_count_off(p, r[1], x, quirk) for x in v)
+    if r[0] == "map":
+        return any(union_count_off(p, r[1], k, quirk) or union_count_off(p, r[2], x, quirk) for k, x in v)
     return False
 
 
@@ -1072,6 +1114,19 @@ def _read_oracle(ctx, p, plan, gen_opts, stats, rmeta, rres, diff_index, per_typ
                 quirk_union_count_off(p, t, v):
             known_sig = KNOWN_INIT_CONST     # a union counted with the emitted IsSet (default read before init())
             stats["known_init_const_default/read/" + pr] += 1
+        if not why and known_sig is None and got is not None and has_init_const_default(p, s) and \
+                union_count_off(p, t, got, False) and not quirk_union_count_off(p, t, got):
+            # Read accepted a content in which a union does not have exactly one field set by the declaration, and has
+            # exactly one by the emitted IsSet of the known finding (a member holding its default - here typically after
+            # the field that was set has been dropped from the encoding - counts as set): the same defect, seen by Read
+            known_sig = KNOWN_INIT_CONST
+            stats["known_init_const_default/read-accepts/" + pr] += 1
+        if why and pr == "json" and r.get("code") == 4 and THRIFT_JSON_SPLIT.search((r.get("err") or "").encode("utf-8", "replace")) \
+                and _special_double_straddles(b):
+            # Apache Thrift's TSimpleJSONProtocol reads NaN / Infinity / -Infinity with one bufio Read: a token that
+            # straddles the reader's 4096-byte buffer comes back short (the finding recorded for C03, outside /repo)
+            known_sig = KNOWN_JSON_SPLIT
+            stats["known/thrift_json_special_double_split/read"] += 1
         if why:
             ctx.violation("C02 oracle (Read, %s): %s" % (pr, why), dict(rep, idl=L.render(p)), signature=known_sig)
         if pr in ("binary", "compact"):
